@@ -116,6 +116,75 @@ Proof.
   intro Hl. unfold Dom, dom. rewrite andb_true_iff, (all_le_spec a x Hl), (any_lt_spec a x Hl). tauto.
 Qed.
 
+
+(* --- per-metric modes: maximising a metric is minimising its negation ----------------------- *)
+
+Lemma xneg_involutive a : xneg (xneg a) = a.
+Proof. destruct a; simpl; try reflexivity. f_equal. destruct q as [n d]. unfold Qopp. simpl. rewrite Z.opp_involutive. reflexivity. Qed.
+
+Lemma xleb_neg a b : xleb (xneg a) (xneg b) = xleb b a.
+Proof.
+  destruct a, b; simpl; try reflexivity.
+  unfold Qleb. destruct (Qle_bool (- q) (- q0)) eqn:E1, (Qle_bool q0 q) eqn:E2; try reflexivity; exfalso.
+  - apply Qle_bool_iff in E1. apply Qopp_le_compat in E1. rewrite !Qopp_involutive in E1.
+    apply Qle_bool_iff in E1. congruence.
+  - apply Qle_bool_iff in E2. apply Qopp_le_compat in E2. apply Qle_bool_iff in E2. congruence.
+Qed.
+
+Lemma xltb_neg a b : xltb (xneg a) (xneg b) = xltb b a.
+Proof. unfold xltb. rewrite xleb_neg. reflexivity. Qed.
+
+(* "a is at least as good as x in a metric of the given mode" / "strictly better" *)
+Definition better_eq (m : bool) (a x : xq) : Prop := if m then xle a x else xle x a.
+Definition better (m : bool) (a x : xq) : Prop := if m then xlt a x else xlt x a.
+
+Lemma metric_dict_length modes : forall vals, length (metric_dict modes vals) = length vals.
+Proof. revert modes. intros modes vals. revert modes. induction vals as [|v vals IH]; intros [|m modes]; simpl; auto. Qed.
+
+Lemma all_le_metric_dict : forall modes a x, length a = length x ->
+  (all_le (metric_dict modes a) (metric_dict modes x) = true <->
+   forall k, (k < length a)%nat -> better_eq (nth k modes true) (nth k a xzero) (nth k x xzero)).
+Proof.
+  intros modes a. revert modes. induction a as [|p a IH]; intros modes [|q x] Hl; simpl in *; try discriminate.
+  - split; [intros _ k Hk; lia | destruct modes; reflexivity].
+  - injection Hl as Hl. destruct modes as [|m modes]; simpl.
+    + rewrite andb_true_iff, (IH [] x Hl). split.
+      * intros [H0 Hr] [|k] Hk; [exact H0 | specialize (Hr k ltac:(lia)); destruct k; exact Hr].
+      * intros H. split; [apply (H 0%nat); lia | intros k Hk; specialize (H (S k) ltac:(lia)); destruct k; exact H].
+    + rewrite andb_true_iff, (IH modes x Hl). split.
+      * intros [H0 Hr] [|k] Hk; [|apply Hr; lia].
+        unfold better_eq, xle. destruct m; [exact H0 | rewrite <- xleb_neg; exact H0].
+      * intros H. split; [|intros k Hk; apply (H (S k)); lia].
+        specialize (H 0%nat ltac:(lia)). unfold better_eq, xle in H. simpl in H. destruct m; [exact H | rewrite xleb_neg; exact H].
+Qed.
+
+Lemma any_lt_metric_dict : forall modes a x, length a = length x ->
+  (any_lt (metric_dict modes a) (metric_dict modes x) = true <->
+   exists k, (k < length a)%nat /\ better (nth k modes true) (nth k a xzero) (nth k x xzero)).
+Proof.
+  intros modes a. revert modes. induction a as [|p a IH]; intros modes [|q x] Hl; simpl in *; try discriminate.
+  - split; [destruct modes; discriminate | intros [k [Hk _]]; lia].
+  - injection Hl as Hl. destruct modes as [|m modes]; simpl.
+    + rewrite orb_true_iff, (IH [] x Hl). split.
+      * intros [H|[k [Hk H]]]; [exists 0%nat; split; [lia|exact H] | exists (S k); split; [lia|destruct k; exact H]].
+      * intros [[|k] [Hk H]]; [left; exact H | right; exists k; split; [lia|destruct k; exact H]].
+    + rewrite orb_true_iff, (IH modes x Hl). split.
+      * intros [H|[k [Hk H]]].
+        -- exists 0%nat. split; [lia|]. unfold better, xlt. simpl. destruct m; [exact H | rewrite <- xltb_neg; exact H].
+        -- exists (S k). split; [lia|exact H].
+      * intros [[|k] [Hk H]].
+        -- left. unfold better, xlt in H. simpl in H. destruct m; [exact H | rewrite xltb_neg; exact H].
+        -- right. exists k. split; [lia|exact H].
+Qed.
+
+Lemma dom_metric_dict modes a x : length a = length x ->
+  (Dom (metric_dict modes a) (metric_dict modes x) <->
+   (forall k, (k < length a)%nat -> better_eq (nth k modes true) (nth k a xzero) (nth k x xzero)) /\
+   exists k, (k < length a)%nat /\ better (nth k modes true) (nth k a xzero) (nth k x xzero)).
+Proof.
+  intro Hl. unfold Dom, dom. rewrite andb_true_iff, (all_le_metric_dict modes a x Hl), (any_lt_metric_dict modes a x Hl). tauto.
+Qed.
+
 (* --- mask_update -------------------------------------------------------- *)
 
 Lemma mask_update_length a : forall X mask, length mask = length X ->
